@@ -19,6 +19,10 @@ for mf in sys.argv[1:]:
             print('skipped', name, o['status'])
             continue
         fires = sorted(c for c, r in o['results'].items() if r['exit'] == 1)
+        if name.startswith('unmodelled'):
+            # behaviour-preserving restructurings the models do not understand yet: recorded as the false alarms they are (DESIGN.md 5)
+            out[name] = {'fires': fires, 'target': None, 'false_alarm': True}
+            continue
         if name.startswith('neutral'):
             if fires:
                 bad.append('FALSE ALARM %s: %s' % (name, fires))
